@@ -736,6 +736,13 @@ def part_b(run):
         # T: the model of the solved workbook ---------------------------------------------------------------------------------------------------
         try:
             marks, nmarks, rmarks, cuts = observe(wb, m, sol)
+            # a marked range pushes #CIRC! into its cells through its inverse assembler when that fires before the
+            # cell's own formula: such cells are marked in effect
+            for k_ in rmarks:
+                s_, r1_, r2_, c1_, c2_ = parse_range_key(wb, k_)
+                for a_ in wb.cells:
+                    if a_[0] == s_ and r1_ <= a_[1] <= r2_ and c1_ <= a_[2] <= c2_ and V[a_] == CIRC and a_ not in marks:
+                        marks.append(a_)
             q = list(wb.cells)
             # the solved workbook must be acyclic (otherwise the model would only run out of fuel)
             sg = {}
